@@ -94,6 +94,8 @@ def run(ctx):
     rule_optout(ctx, F)
     rule_algs(ctx, F)
     rule_qany(ctx, F)
+    rule_badsigs(ctx, F)
+    rule_loopcount(ctx, F)
 
 
 def rule_sig(ctx, F):
@@ -1128,3 +1130,81 @@ def rule_qany(ctx, F):
                "get_answer_state finds an answer only under `group.rtype() == qtype`%s: for QTYPE ANY no RRset ever matches, the "
                "reply is then judged as a negative answer without SOA, and a correctly signed ANY answer is reported bogus"
                % ("" if forced else " (and never looks at Rtype::ANY)"), b.where(bi))
+
+
+def rule_badsigs(ctx, F):
+    """The validator tolerates `max_bad_signatures` failed verifications per RRset (key-tag collisions) and gives up on
+    the next: all three places that count them compare with `>` -- a `>=` at one of them makes a correctly signed
+    zone with one colliding key bogus there and only there."""
+    R = "C14.badsigs"
+    ctx.floor(R, 3)
+    n = 0
+    for p, b in sorted(F.bodies.items()):
+        if not p.startswith(V) or "::test" in p:
+            continue
+        for bi in sorted(b.reachable_blocks()):
+            t = b.blocks[bi]["t"]
+            if t["k"] != "switch" or t["ty"] != "bool":
+                continue
+            d = deep_strip(b.term_of_operand(t["d"]))
+            if d[0] != "bin" or d[1] not in ("Gt", "Ge", "Lt", "Le") or "max_bad_signatures" not in show(d):
+                continue
+            n += 1
+            lim_right = "max_bad_signatures" in show(d[3])
+            op = d[1] if lim_right else {"Gt": "Lt", "Lt": "Gt", "Ge": "Le", "Le": "Ge"}[d[1]]
+            ctx.ob(R, b, "failed verifications are tolerated up to the configured number #%d" % n, op == "Gt",
+                   "%s gives up when the count of failed signatures is %s max_bad_signatures (its siblings and the documentation: "
+                   "more than): with the default of one tolerated failure a DNSKEY RRset with two keys of the same tag is bogus "
+                   "when the wrong key is tried first" % (p.split("::{closure")[0].split("::")[-1], {"Ge": ">=", "Lt": "<", "Le": "<="}.get(op, op)), b.where(bi))
+    ctx.call_sites += n
+
+
+def rule_loopcount(ctx, F):
+    """do_cname_dname follows CNAME and DNAME links in a loop whose only bound is the step counter: every way round the
+    loop passes an increment of the counter that max_cname_dname is compared with (CNAME and DNAME arm alike), or a
+    cycle of DNAMEs from upstream keeps the validator busy for ever."""
+    from rulelib import cyclic_blocks
+    R = "C14.loopcount"
+    ctx.floor(R, 1)
+    bs = [b for p, b in F.bodies.items() if re.search(r"^dnssec::validator::utilities::do_cname_dname(::\{closure#0\})?$", p)]
+    bs = [b for b in bs if b.calls_matching(r"max_cname_dname$")]
+    if not ctx.anchor(R, "utilities::do_cname_dname", len(bs) == 1):
+        return
+    b = bs[0]
+    lim = [bb for bb, _ in b.calls_matching(r"max_cname_dname$")]
+    # the counter: the local compared with max_cname_dname()
+    counters = set()
+    for bi in b.reachable_blocks():
+        for st in b.blocks[bi]["s"]:
+            if st[0] == "=" and st[2][0] == "bin" and st[2][1] in ("Gt", "Ge", "Lt", "Le"):
+                for a, o in ((st[2][2], st[2][3]), (st[2][3], st[2][2])):
+                    if "max_cname_dname" in show(deep_strip(b.term_of_operand(o))) and a[0] in ("c", "m") and len(a[1]) == 1:
+                        counters.add(a[1][0])
+                        for d in b.defs().get(a[1][0], []):
+                            if d[0] == "stmt" and d[3][0] == "use" and d[3][1][0] in ("c", "m") and len(d[3][1][1]) == 1:
+                                counters.add(d[3][1][1][0])
+    incs = set()
+    for bi in b.reachable_blocks():
+        for st in b.blocks[bi]["s"]:
+            if st[0] == "=" and len(st[1]) == 1 and st[1][0] in counters and st[2][0] == "use" and st[2][1][0] in ("c", "m") \
+                    and len(st[2][1][1]) == 2:
+                src = st[2][1][1][0]
+                for d in b.defs().get(src, []):
+                    if d[0] == "stmt" and d[3][0] == "bin" and d[3][1].startswith("Add"):
+                        incs.add(bi)
+    if not ctx.anchor(R, "the step counter of do_cname_dname and its increments", bool(counters) and bool(incs), b.where()):
+        return
+    # the unbounded loop is the outer one, which starts a fresh pass over the groups for every link followed (its header is
+    # the into_iter() call of that pass); the passes themselves are bounded by the number of groups
+    heads = [bb for bb, t in b.calls() if re.search(r"IntoIterator::into_iter$", t["fn"] or "") and bb in cyclic_blocks(b)]
+    if not ctx.anchor(R, "the pass over the answer groups that is restarted for every link", len(heads) >= 1, b.where()):
+        return
+    bad = []
+    for h in heads:
+        for s_, lab in b.succs(h):
+            if h in b.reach_from(s_, removed_blocks=incs):
+                bad.append(h)
+    ctx.ob(R, b, "every way round the link-following loop counts a step", not bad,
+           "do_cname_dname can start another pass over the answer groups without having incremented the counter that is compared "
+           "with max_cname_dname: a response with a cycle of such links (DNAMEs pointing at each other) never lets validate_msg "
+           "return", b.where(bad[0]) if bad else b.where())
